@@ -154,7 +154,7 @@ def _pipe_pred_post(A, r):
     return And(*conds)
 
 
-contract(f"{PIPE}::TransformedTargetForecaster._predict", "C09", cases=PIPE_CASES, inputs=_pipe_pred_inputs,
+contract(f"{PIPE}::TransformedTargetForecaster._predict", "C09,C12", cases=PIPE_CASES, inputs=_pipe_pred_inputs,
          ensures=[("inverse-transforms-in-reverse-order", _pipe_pred_post)], frame=lambda A: [A.self])
 
 
@@ -253,7 +253,7 @@ def _members_fitted_post(orig_attr="forecasters"):
     return post
 
 
-contract(f"{ENS}::EnsembleForecaster.fit", "C09", cases=[c for c in ENS_CASES if "bogus" not in c][::4] + ["m2|median"], inputs=_ens_fit_inputs,
+contract(f"{ENS}::EnsembleForecaster.fit", "C09,C12", cases=[c for c in ENS_CASES if "bogus" not in c][::4] + ["m2|median"], inputs=_ens_fit_inputs,
          ensures=[("members-are-independent-clones-fitted-on-the-same-data", _members_fitted_post())])
 
 
@@ -281,7 +281,7 @@ def _ens_pred_post(A, r):
     return name == s.attrs["aggfunc"] and axis == 1 and len(parts) == len(preds) and all(a is b for a, b in zip(parts, preds))
 
 
-contract(f"{ENS}::EnsembleForecaster._predict", "C09", cases=ENS_CASES,
+contract(f"{ENS}::EnsembleForecaster._predict", "C09,C12", cases=ENS_CASES,
          inputs=lambda B, case: (lambda o: {"self": o[0], "fh": o[0].attrs["_fh"], "X": None})(fitted_ensemble(B, case)),
          raises=[("ValueError", lambda A: A.self.attrs["aggfunc"] not in ("median", "mean", "min", "max"))],
          ensures=[("row-wise-aggregate-of-member-forecasts-in-member-order", _ens_pred_post)], frame=lambda A: [A.self])
@@ -374,7 +374,7 @@ def _mux_pred_post(A, r):
     return len(p) == 1 and p[0].arg(0, "fh") is A.fh and p[0].arg(1, "X") is A.X and r is p[0].result and len([e for e in trace() if e.obj is not None]) == 1
 
 
-contract(f"{MUX}::MultiplexForecaster._predict", "C09", cases=["m2|f1"],
+contract(f"{MUX}::MultiplexForecaster._predict", "C09,C12", cases=["m2|f1"],
          inputs=lambda B, case: (lambda o: {"self": o[0], "fh": o[0].attrs["_fh"], "X": None})(fitted_mux(B, case)),
          ensures=[("forwards-to-the-selected-member", _mux_pred_post)], frame=lambda A: [A.self])
 contract(f"{MUX}::MultiplexForecaster.update", "C09,C10", cases=["m2|f1"],
